@@ -120,7 +120,7 @@ pub fn run(args: &Args) {
     }
     let mut st = Stats::default();
     for l in &lines {
-        replay_line(&mut st, l);
+        guard_case(&mut st, "EXTRA", "replay-compare", l, |st| replay_line(st, l));
     }
     finish(st, args.req("out"), args.req("replay-dir"), json!({"lines": lines.len()}));
 }
